@@ -536,9 +536,9 @@ pub(crate) struct DrawState {
     pub(crate) alignment: MultiProgressAlignment,
     /// The number of blank lines the last draw put above the bars (bottom alignment only)
     pub(crate) padding: VisualLines,
-    /// The last draw left the cursor parked on the last row of the region it painted (at the
-    /// right edge, or behind the text of the last bar line when it stopped at the terminal height)
-    parked: bool,
+    /// The last draw stopped at the terminal height and left the cursor behind the text of the
+    /// last bar line it painted instead of at the right edge
+    unfinished_row: bool,
 }
 
 impl DrawState {
@@ -573,12 +573,9 @@ impl DrawState {
         }
 
         let nothing_to_replace = *bar_count == VisualLines::default();
-        if self.parked && nothing_to_replace && !self.lines.is_empty() {
+        if self.unfinished_row && nothing_to_replace {
             // The rows of the last draw all stay on screen as static text (nothing was cleared
-            // above) and the cursor still sits on the last of them: start on a fresh row. Text
-            // would wrap there by itself, but not when the row was cut short at the terminal
-            // height, and an empty first line would share the row with the static text and be
-            // counted as a row of its own.
+            // above) and the cursor still sits behind the last of them: start on a fresh row
             term.write_line("")?;
         }
 
@@ -608,6 +605,7 @@ impl DrawState {
         // full height exceeds the terminal height.
         let mut real_height = VisualLines::default();
         let mut ends_with_text = false;
+        let mut unfinished_row = false;
 
         for (idx, line) in self.lines.iter().enumerate() {
             let line_height = line.wrapped_height(term_width);
@@ -616,6 +614,8 @@ impl DrawState {
             if matches!(line, LineType::Bar(_)) {
                 // Stop here if printing this bar would exceed the terminal height
                 if real_height.saturating_add(line_height) > term.height().into() {
+                    // The bar line painted before this one, if any, got no filler
+                    unfinished_row = real_height != VisualLines::default();
                     break;
                 }
 
@@ -638,10 +638,21 @@ impl DrawState {
             term.write_str(line.as_ref())?;
             ends_with_text = !matches!(line, LineType::Bar(_));
 
+            // When no row is replaced, the cursor may still be parked at the right edge of static
+            // text (the lines of finished bars). Text wraps to a fresh row there by itself; a
+            // first line without any width would stay on that row and yet be counted as a row
+            // of the frame: give it a blank to stand on.
+            let stand_in = usize::from(
+                idx == 0 && nothing_to_replace && term_width > 0 && line.layout(term_width).1 == 0,
+            );
+            if stand_in == 1 {
+                term.write_str(" ")?;
+            }
+
             if idx + 1 == self.lines.len() && !ends_with_text {
                 // For the last line of the output, keep the cursor on the right terminal
                 // side so that next user writes/prints will happen on the next line
-                let last_line_filler = term_width - line.layout(term_width).1;
+                let last_line_filler = term_width - line.layout(term_width).1 - stand_in;
                 term.write_str(&" ".repeat(last_line_filler))?;
             }
         }
@@ -667,9 +678,7 @@ impl DrawState {
         term.flush()?;
         *bar_count = real_height + shift;
         self.padding = shift;
-        // (a draw of nothing over nothing has not moved the cursor)
-        self.parked = *bar_count != VisualLines::default()
-            || (self.parked && nothing_to_replace && self.lines.is_empty());
+        self.unfinished_row = unfinished_row;
 
         Ok(())
     }
